@@ -25,13 +25,23 @@ const isFloat32 = 4
 const isFloat64 = 8
 
 func readNBytes(src *bufio.Reader, n int) []byte {
-	ret := make([]byte, n)
+	if n < 0 {
+		panic(fmt.Errorf("Tried to Read %d Bytes.. But the length is negative", n))
+	}
+	// The length comes from the input: do not allocate on its word, grow with
+	// the bytes that are really there.
+	const maxPrealloc = 4096
+	c := n
+	if c > maxPrealloc {
+		c = maxPrealloc
+	}
+	ret := make([]byte, 0, c)
 	for i := 0; i < n; i++ {
 		ch, e := src.ReadByte()
 		if e != nil {
 			panic(fmt.Errorf("Tried to Read %d Bytes.. But hit end of file", n))
 		}
-		ret[i] = ch
+		ret = append(ret, ch)
 	}
 	return ret
 }
@@ -224,7 +234,10 @@ func decodeStringToDataUrl(src *bufio.Reader, mimeType string) []byte {
 		panic(fmt.Errorf("Major type is: %d in decodeString", major))
 	}
 	length := decodeIntAdditionalType(src, minor)
-	l := int(length)
+	// Read the payload before sizing the result: the declared length is not
+	// to be trusted for an allocation.
+	pbs := readNBytes(src, int(length))
+	l := len(pbs)
 	enc := base64.StdEncoding
 	lEnc := enc.EncodedLen(l)
 	result := make([]byte, len("\"data:;base64,\"")+len(mimeType)+lEnc)
@@ -235,7 +248,6 @@ func decodeStringToDataUrl(src *bufio.Reader, mimeType string) []byte {
 	dest = dest[u:]
 	u = copy(dest, ";base64,")
 	dest = dest[u:]
-	pbs := readNBytes(src, l)
 	enc.Encode(dest, pbs)
 	dest = dest[lEnc:]
 	dest[0] = '"'
